@@ -355,6 +355,25 @@ class _SubstNames(ast.NodeTransformer):
         return node
 
 
+
+def _arms_assign(st: ast.stmt) -> t.Optional[t.Tuple[str, ast.expr]]:
+    """``if C: t = A else: t = B``  ->  (t, ``A if C else B``)."""
+    if not (isinstance(st, ast.If) and len(st.body) == 1 and len(st.orelse) == 1):
+        return None
+    a, b = st.body[0], st.orelse[0]
+
+    def one(x: ast.stmt) -> t.Optional[t.Tuple[str, ast.expr]]:
+        if isinstance(x, ast.Assign) and len(x.targets) == 1 and isinstance(x.targets[0], ast.Name):
+            return x.targets[0].id, x.value
+        if isinstance(x, ast.AnnAssign) and isinstance(x.target, ast.Name) and x.value is not None:
+            return x.target.id, x.value
+        return None
+    pa, pb = one(a), one(b)
+    if pa is None or pb is None or pa[0] != pb[0]:
+        return None
+    return pa[0], ast.IfExp(test=_clone(st.test), body=_clone(pa[1]), orelse=_clone(pb[1]))
+
+
 def _loop_as_comprehension(loop: ast.For, acc: str, kind: str) -> t.Optional[ast.expr]:
     """The comprehension a ``for`` loop amounts to when its body is guards (``if not c: continue`` / ``if c:`` nesting), single-use
     temporaries and exactly one final fill of ``acc``."""
@@ -373,6 +392,11 @@ def _loop_as_comprehension(loop: ast.For, acc: str, kind: str) -> t.Optional[ast
             continue
         if isinstance(st, ast.If) and not st.orelse and len(st.body) == 1 and isinstance(st.body[0], ast.Continue) and not _mentions(st.test, acc):
             filters.append(t.cast(ast.expr, _SubstNames(temps).visit(_not(_clone(st.test)))))
+            body = body[1:]
+            continue
+        arms = _arms_assign(st) if len(body) > 1 else None
+        if arms is not None and arms[0] != acc and arms[0] not in temps and not _mentions(st, acc):
+            temps[arms[0]] = t.cast(ast.expr, _SubstNames(temps).visit(arms[1]))
             body = body[1:]
             continue
         if len(body) > 1 and isinstance(st, (ast.Assign, ast.AnnAssign)):
@@ -429,64 +453,79 @@ def _split_loop(loop: ast.For, inits: t.Dict[str, str]) -> t.Optional[t.List[ast
             y = f(x)
             out.append(y)
             if y is not x: changed = True
+
+    ``if c: a.append(x) else: b.append(x)`` (a partition) gives each accumulator its own filter.
     """
     if loop.orelse or any(_mentions(loop.iter, a) or _mentions(loop.target, a) for a in inits):
         return None
     temps: t.Dict[str, ast.expr] = {}
-    filters: t.List[ast.expr] = []
     results: t.Dict[str, ast.expr] = {}
-    seen_fill = False
 
-    def gens() -> t.List[ast.comprehension]:
+    def touches(e: ast.AST) -> bool:
+        return any(_mentions(e, a) for a in inits)
+
+    def gens(filters: t.List[ast.expr]) -> t.List[ast.comprehension]:
         return [ast.comprehension(target=_clone(loop.target), iter=_clone(loop.iter), ifs=[_clone(x) for x in filters], is_async=0)]
-    for st in loop.body:
-        sub = _SubstNames(temps)
-        if isinstance(st, ast.If) and not st.orelse and len(st.body) == 1 and isinstance(st.body[0], ast.Continue) and not seen_fill \
-                and not any(_mentions(st.test, a) for a in inits):
-            filters.append(t.cast(ast.expr, sub.visit(_not(_clone(st.test)))))
-            continue
-        if isinstance(st, (ast.Assign, ast.AnnAssign)):
-            tg = st.targets[0] if isinstance(st, ast.Assign) and len(st.targets) == 1 else (st.target if isinstance(st, ast.AnnAssign) else None)
-            if isinstance(tg, ast.Name) and st.value is not None and tg.id not in inits and tg.id not in temps \
-                    and not any(_mentions(st.value, a) for a in inits) \
-                    and not any(isinstance(x, (ast.NamedExpr, ast.Yield, ast.YieldFrom, ast.Await)) for x in ast.walk(st.value)):
-                temps[tg.id] = t.cast(ast.expr, sub.visit(_clone(st.value)))
+
+    def conj(filters: t.List[ast.expr]) -> ast.expr:
+        return filters[0] if len(filters) == 1 else ast.BoolOp(op=ast.And(), values=[_clone(x) for x in filters])
+
+    def walk(stmts: t.Sequence[ast.stmt], filters: t.List[ast.expr], top: bool) -> bool:
+        filters = list(filters)
+        for st in stmts:
+            sub = _SubstNames(temps)
+            if isinstance(st, ast.If) and not st.orelse and len(st.body) == 1 and isinstance(st.body[0], ast.Continue) and top and not touches(st.test):
+                filters.append(t.cast(ast.expr, sub.visit(_not(_clone(st.test)))))
                 continue
-            if isinstance(st, ast.Assign) and isinstance(tg, ast.Subscript) and isinstance(tg.value, ast.Name) and inits.get(tg.value.id) == 'dict' \
-                    and tg.value.id not in results and not any(_mentions(x, a) for a in inits for x in (tg.slice, st.value)):
-                results[tg.value.id] = ast.DictComp(key=t.cast(ast.expr, sub.visit(_clone(tg.slice))), value=t.cast(ast.expr, sub.visit(_clone(st.value))),
-                                                    generators=gens())
-                seen_fill = True
+            arms = _arms_assign(st) if top else None
+            if arms is not None and arms[0] not in inits and arms[0] not in temps and not touches(st):
+                temps[arms[0]] = t.cast(ast.expr, sub.visit(arms[1]))
                 continue
-            return None
-        if isinstance(st, ast.Expr) and isinstance(st.value, ast.Call) and isinstance(st.value.func, ast.Attribute) \
-                and isinstance(st.value.func.value, ast.Name) and len(st.value.args) == 1 and not st.value.keywords:
-            a_, meth, arg = st.value.func.value.id, st.value.func.attr, st.value.args[0]
-            if a_ in inits and a_ not in results and not any(_mentions(arg, b) for b in inits):
-                elt = t.cast(ast.expr, sub.visit(_clone(arg)))
-                if meth == 'append' and inits[a_] == 'list':
-                    results[a_] = ast.ListComp(elt=elt, generators=gens())
-                    seen_fill = True
+            if isinstance(st, (ast.Assign, ast.AnnAssign)):
+                tg = st.targets[0] if isinstance(st, ast.Assign) and len(st.targets) == 1 else (st.target if isinstance(st, ast.AnnAssign) else None)
+                if top and isinstance(tg, ast.Name) and st.value is not None and tg.id not in inits and tg.id not in temps and not touches(st.value) \
+                        and not any(isinstance(x, (ast.NamedExpr, ast.Yield, ast.YieldFrom, ast.Await)) for x in ast.walk(st.value)):
+                    temps[tg.id] = t.cast(ast.expr, sub.visit(_clone(st.value)))
                     continue
-                if meth == 'add' and inits[a_] == 'set':
-                    results[a_] = ast.SetComp(elt=elt, generators=gens())
-                    seen_fill = True
+                if isinstance(st, ast.Assign) and isinstance(tg, ast.Subscript) and isinstance(tg.value, ast.Name) and inits.get(tg.value.id) == 'dict' \
+                        and tg.value.id not in results and not touches(tg.slice) and not touches(st.value):
+                    results[tg.value.id] = ast.DictComp(key=t.cast(ast.expr, sub.visit(_clone(tg.slice))),
+                                                        value=t.cast(ast.expr, sub.visit(_clone(st.value))), generators=gens(filters))
                     continue
-            return None
-        if isinstance(st, ast.If) and not st.orelse and len(st.body) == 1 and isinstance(st.body[0], ast.Assign) and len(st.body[0].targets) == 1 \
-                and isinstance(st.body[0].targets[0], ast.Name) and isinstance(st.body[0].value, ast.Constant) \
-                and not any(_mentions(st.test, a) for a in inits):
-            fl = st.body[0].targets[0].id
-            kind = inits.get(fl)
-            if kind in ('flagTrue', 'flagFalse') and fl not in results and st.body[0].value.value is (kind == 'flagFalse'):
-                every = ast.Call(func=ast.Name(id='all', ctx=ast.Load()),
-                                 args=[ast.GeneratorExp(elt=t.cast(ast.expr, sub.visit(_not(_clone(st.test)))), generators=gens())], keywords=[])
-                results[fl] = every if kind == 'flagTrue' else ast.UnaryOp(op=ast.Not(), operand=every)
-                seen_fill = True
+                if isinstance(st, ast.Assign) and isinstance(tg, ast.Name) and isinstance(st.value, ast.Constant) and filters \
+                        and inits.get(tg.id) in ('flagTrue', 'flagFalse') and tg.id not in results \
+                        and st.value.value is (inits[tg.id] == 'flagFalse'):
+                    # `if c: flag = True` (flag starts False): flag == not all(not c)
+                    every = ast.Call(func=ast.Name(id='all', ctx=ast.Load()),
+                                     args=[ast.GeneratorExp(elt=_not(conj(filters)), generators=gens([]))], keywords=[])
+                    results[tg.id] = every if inits[tg.id] == 'flagTrue' else ast.UnaryOp(op=ast.Not(), operand=every)
+                    continue
+                return False
+            if isinstance(st, ast.Expr) and isinstance(st.value, ast.Call) and isinstance(st.value.func, ast.Attribute) \
+                    and isinstance(st.value.func.value, ast.Name) and len(st.value.args) == 1 and not st.value.keywords:
+                a_, meth, arg = st.value.func.value.id, st.value.func.attr, st.value.args[0]
+                if a_ in inits and a_ not in results and not touches(arg):
+                    elt = t.cast(ast.expr, sub.visit(_clone(arg)))
+                    if meth == 'append' and inits[a_] == 'list':
+                        results[a_] = ast.ListComp(elt=elt, generators=gens(filters))
+                        continue
+                    if meth == 'add' and inits[a_] == 'set':
+                        results[a_] = ast.SetComp(elt=elt, generators=gens(filters))
+                        continue
+                return False
+            if isinstance(st, ast.If) and not touches(st.test):
+                test = t.cast(ast.expr, sub.visit(_clone(st.test)))
+                if not walk(st.body, filters + [test], False):
+                    return False
+                if st.orelse and not walk(st.orelse, filters + [_not(_clone(test))], False):
+                    return False
                 continue
-            return None
-        return None
-    if not results:
+            if isinstance(st, ast.Pass):
+                continue
+            return False
+        return True
+
+    if not walk(loop.body, [], True) or not results:
         return None
     out: t.List[ast.stmt] = []
     for nm, val in results.items():
@@ -710,9 +749,11 @@ def inline_import_helpers(fn: ast.FunctionDef, lookup: t.Callable[[ast.Call], t.
 def spread_kwargs_dicts(fn: ast.FunctionDef) -> int:
     """``opts = {'indent': indent, 'custom': custom}`` ... ``f(x, **opts)``  ->  ``f(x, indent=indent, custom=custom)``.
 
-    Only when ``opts`` is bound exactly once, to a dictionary display / ``dict(k=v)`` call with constant string keys whose values are
-    names, attributes or constants (so that evaluating them at the call instead changes nothing), is never stored into or passed
-    anywhere except as ``**opts``.  Forwarding rules (which option reaches which callee under which name) then read explicit keywords."""
+    ``opts`` is bound once, to a dictionary display / ``dict(k=v)`` call with constant string keys; it may then be filled by
+    ``opts['k'] = v`` statements and by ``for a in ('x', 'y'): opts[a] = getattr(obj, a)`` loops over constant names (unrolled to
+    ``x=obj.x, y=obj.y``), all in the same block; every value is a name, attribute or constant that is not rebound afterwards; and
+    the dictionary is used only as ``**opts``.  Forwarding rules (which option reaches which callee under which name) then read
+    explicit keywords."""
     stores: t.Dict[str, t.List[ast.AST]] = {}
     for st in ast.walk(fn):
         if isinstance(st, ast.Assign):
@@ -727,12 +768,25 @@ def spread_kwargs_dicts(fn: ast.FunctionDef) -> int:
                 if isinstance(nm, ast.Name):
                     stores.setdefault(nm.id, []).append(st)
     params = {a.arg for a in fn.args.args + fn.args.kwonlyargs + fn.args.posonlyargs}
-    cands: t.Dict[str, t.List[t.Tuple[str, ast.expr]]] = {}
+    parent: t.Dict[int, ast.AST] = {}
+    for p in ast.walk(fn):
+        for ch in ast.iter_child_nodes(p):
+            parent[id(ch)] = p
 
     def pure(e: ast.AST) -> bool:
         if isinstance(e, (ast.Name, ast.Constant)):
             return True
         return isinstance(e, ast.Attribute) and pure(e.value)
+
+    def block_of(st: ast.AST) -> t.Optional[t.List[ast.stmt]]:
+        par = parent.get(id(st))
+        for fld in ('body', 'orelse', 'finalbody'):
+            b = getattr(par, fld, None)
+            if isinstance(b, list) and st in b:
+                return b
+        return None
+    cands: t.Dict[str, t.List[t.Tuple[str, ast.expr]]] = {}
+    drop: t.Dict[str, t.List[ast.stmt]] = {}
     for nm, sts in stores.items():
         if len(sts) != 1 or nm in params:
             continue
@@ -743,34 +797,72 @@ def spread_kwargs_dicts(fn: ast.FunctionDef) -> int:
         if isinstance(st, ast.Assign) and not (len(st.targets) == 1 and isinstance(st.targets[0], ast.Name)):
             continue
         items: t.List[t.Tuple[str, ast.expr]] = []
-        if isinstance(val, ast.Dict) and val.keys and all(isinstance(k, ast.Constant) and isinstance(k.value, str) for k in val.keys):
+        if isinstance(val, ast.Dict) and all(isinstance(k, ast.Constant) and isinstance(k.value, str) for k in val.keys):
             items = [(k.value, v) for k, v in zip(val.keys, val.values)]       # type: ignore[union-attr]
-        elif isinstance(val, ast.Call) and isinstance(val.func, ast.Name) and val.func.id == 'dict' and not val.args and val.keywords \
+        elif isinstance(val, ast.Call) and isinstance(val.func, ast.Name) and val.func.id == 'dict' and not val.args \
                 and all(k.arg for k in val.keywords):
             items = [(t.cast(str, k.arg), k.value) for k in val.keywords]
-        if not items or not all(pure(v) for _k, v in items):
+        else:
             continue
-        # the values' names must not be rebound anywhere in the function (params / single-store locals)
-        ok = True
+        # later fills in the same block
+        blk = block_of(st)
+        extra_stmts: t.List[ast.stmt] = []
+        ok = blk is not None
+        if blk is not None:
+            for s2 in blk[blk.index(t.cast(ast.stmt, st)) + 1:]:
+                if not any(isinstance(x, ast.Name) and x.id == nm for x in ast.walk(s2)):
+                    continue
+                if isinstance(s2, ast.Assign) and len(s2.targets) == 1 and isinstance(s2.targets[0], ast.Subscript) \
+                        and isinstance(s2.targets[0].value, ast.Name) and s2.targets[0].value.id == nm \
+                        and isinstance(s2.targets[0].slice, ast.Constant) and isinstance(s2.targets[0].slice.value, str) \
+                        and not any(isinstance(x, ast.Name) and x.id == nm for x in ast.walk(s2.value)):
+                    items = [(k, v) for (k, v) in items if k != s2.targets[0].slice.value] + [(s2.targets[0].slice.value, s2.value)]
+                    extra_stmts.append(s2)
+                    continue
+                if isinstance(s2, ast.For) and not s2.orelse and isinstance(s2.target, ast.Name) and isinstance(s2.iter, (ast.Tuple, ast.List)) \
+                        and s2.iter.elts and all(isinstance(e, ast.Constant) and isinstance(e.value, str) for e in s2.iter.elts) \
+                        and len(s2.body) == 1 and isinstance(s2.body[0], ast.Assign) and len(s2.body[0].targets) == 1:
+                    tg = s2.body[0].targets[0]
+                    v2 = s2.body[0].value
+                    if isinstance(tg, ast.Subscript) and isinstance(tg.value, ast.Name) and tg.value.id == nm and isinstance(tg.slice, ast.Name) \
+                            and tg.slice.id == s2.target.id and isinstance(v2, ast.Call) and isinstance(v2.func, ast.Name) and v2.func.id == 'getattr' \
+                            and len(v2.args) == 2 and isinstance(v2.args[1], ast.Name) and v2.args[1].id == s2.target.id and pure(v2.args[0]):
+                        for e in s2.iter.elts:
+                            key = e.value        # type: ignore[attr-defined]
+                            attr = ast.Attribute(value=_clone(v2.args[0]), attr=key, ctx=ast.Load())
+                            items = [(k, v) for (k, v) in items if k != key] + [(key, attr)]
+                        extra_stmts.append(s2)
+                        continue
+                break       # first other use (the `**nm` call, or something the rewrite does not model)
+        if not ok or not items or not all(pure(v) for _k, v in items):
+            continue
+        # names used in the values must not be rebound after the dictionary statement
+        line0 = getattr(st, 'lineno', 0)
         for _k, v in items:
             for x in ast.walk(v):
-                if isinstance(x, ast.Name) and x.id not in params and len(stores.get(x.id, [])) > 1:
-                    ok = False
-                if isinstance(x, ast.Name) and x.id in params and stores.get(x.id):
+                if isinstance(x, ast.Name) and any(getattr(s3, 'lineno', 0) >= line0 and s3 is not st and s3 not in extra_stmts
+                                                   for s3 in stores.get(x.id, [])):
                     ok = False
         if ok:
             cands[nm] = items
+            drop[nm] = extra_stmts
     if not cands:
         return 0
-    # every load of the name must be a `**name` argument
-    parent: t.Dict[int, ast.AST] = {}
-    for p in ast.walk(fn):
-        for ch in ast.iter_child_nodes(p):
-            parent[id(ch)] = p
+    # every other load of the name must be a `**name` argument
     for x in ast.walk(fn):
         if isinstance(x, ast.Name) and isinstance(x.ctx, ast.Load) and x.id in cands:
             par = parent.get(id(x))
-            if not (isinstance(par, ast.keyword) and par.arg is None and par.value is x):
+            if isinstance(par, ast.keyword) and par.arg is None and par.value is x:
+                continue
+            # a use inside one of the fill statements that will be dropped
+            p2: t.Optional[ast.AST] = x
+            inside = False
+            while p2 is not None:
+                if p2 in drop.get(x.id, []):
+                    inside = True
+                    break
+                p2 = parent.get(id(p2))
+            if not inside:
                 cands.pop(x.id, None)
     n = 0
     for c in ast.walk(fn):
@@ -790,4 +882,224 @@ def spread_kwargs_dicts(fn: ast.FunctionDef) -> int:
                     new_kw.append(k)
             if changed:
                 c.keywords = new_kw
+    if n:
+        for nm in cands:
+            for s2 in drop.get(nm, []):
+                blk = block_of(s2)
+                if blk is not None and s2 in blk:
+                    blk[blk.index(s2)] = ast.copy_location(ast.Pass(), s2)
     return n
+
+
+# ---------------------------------------------------------------------------- generator functions of one loop
+
+
+def generator_to_genexp(fn: ast.FunctionDef) -> int:
+    """``def g(xs): for x in xs: if c: yield e``  ->  ``def g(xs): return (e for x in xs if c)``.
+
+    Only for a body that is exactly one ``for`` loop (after the docstring) whose body is guards (``if c:`` nesting / ``if not c:
+    continue``), single-use temporaries and one final ``yield``.  What the caller iterates over is the same sequence of values; the
+    rules then read the helper like any other function that returns a generator expression."""
+    body = [s for s in fn.body if not (isinstance(s, ast.Expr) and isinstance(s.value, ast.Constant))]
+    if len(body) != 1 or not isinstance(body[0], ast.For) or body[0].orelse:
+        return 0
+    loop = body[0]
+    n_yield = sum(1 for x in ast.walk(fn) if isinstance(x, (ast.Yield, ast.YieldFrom)))
+    if n_yield != 1:
+        return 0
+    filters: t.List[ast.expr] = []
+    temps: t.Dict[str, ast.expr] = {}
+    stmts = list(loop.body)
+    while True:
+        if not stmts:
+            return 0
+        st = stmts[0]
+        if len(stmts) == 1 and isinstance(st, ast.If) and not st.orelse:
+            filters.append(t.cast(ast.expr, _SubstNames(temps).visit(_clone(st.test))))
+            stmts = list(st.body)
+            continue
+        if isinstance(st, ast.If) and not st.orelse and len(st.body) == 1 and isinstance(st.body[0], ast.Continue):
+            filters.append(t.cast(ast.expr, _SubstNames(temps).visit(_not(_clone(st.test)))))
+            stmts = stmts[1:]
+            continue
+        if len(stmts) > 1 and isinstance(st, ast.Assign) and len(st.targets) == 1 and isinstance(st.targets[0], ast.Name) \
+                and st.targets[0].id not in temps:
+            temps[st.targets[0].id] = t.cast(ast.expr, _SubstNames(temps).visit(_clone(st.value)))
+            stmts = stmts[1:]
+            continue
+        break
+    if len(stmts) != 1 or not (isinstance(stmts[0], ast.Expr) and isinstance(stmts[0].value, ast.Yield) and stmts[0].value.value is not None):
+        return 0
+    elt = t.cast(ast.expr, _SubstNames(temps).visit(_clone(stmts[0].value.value)))
+    gen = ast.GeneratorExp(elt=elt, generators=[ast.comprehension(target=_clone(loop.target), iter=_clone(loop.iter), ifs=filters, is_async=0)])
+    ret = ast.Return(value=gen)
+    for y in ast.walk(ret):
+        ast.copy_location(y, loop)
+    keep = [s for s in fn.body if isinstance(s, ast.Expr) and isinstance(s.value, ast.Constant)][:1]
+    fn.body = keep + [ret]
+    return 1
+
+
+# ---------------------------------------------------------------------------- isinstance(x, A) or isinstance(x, B)
+
+
+class _MergeIsinstance(ast.NodeTransformer):
+    """``isinstance(x, A) or isinstance(x, B)`` -> ``isinstance(x, (A, B))`` and ``not isinstance(x, A) and not isinstance(x, B)`` ->
+    ``not isinstance(x, (A, B))`` (same first argument, a plain name or attribute chain; adjacent operands only, so the evaluation
+    order of anything else in the chain is untouched).  One kind test is then one branch in the control-flow graph."""
+
+    def __init__(self) -> None:
+        self.count = 0
+
+    @staticmethod
+    def _inst(e: ast.AST, negated: bool) -> t.Optional[t.Tuple[str, t.List[ast.expr]]]:
+        if negated:
+            if not (isinstance(e, ast.UnaryOp) and isinstance(e.op, ast.Not)):
+                return None
+            e = e.operand
+        if isinstance(e, ast.Call) and isinstance(e.func, ast.Name) and e.func.id in ('isinstance', 'issubclass') and len(e.args) == 2 and not e.keywords:
+            subj = e.args[0]
+            x = subj
+            while isinstance(x, ast.Attribute):
+                x = x.value
+            if not isinstance(x, ast.Name):
+                return None
+            cl = e.args[1]
+            return e.func.id + ':' + ast.unparse(subj), (list(cl.elts) if isinstance(cl, ast.Tuple) else [cl])
+        return None
+
+    def visit_BoolOp(self, node: ast.BoolOp) -> t.Any:
+        self.generic_visit(node)
+        negated = isinstance(node.op, ast.And)
+        out: t.List[ast.expr] = []
+        for v in node.values:
+            cur = self._inst(v, negated)
+            prev = self._inst(out[-1], negated) if out else None
+            if cur is not None and prev is not None and cur[0] == prev[0]:
+                call = out[-1].operand if negated else out[-1]       # type: ignore[union-attr]
+                merged = ast.Tuple(elts=[_clone(x) for x in prev[1] + cur[1]], ctx=ast.Load())
+                call.args[1] = merged                                  # type: ignore[union-attr]
+                for y in ast.walk(merged):
+                    ast.copy_location(y, v)
+                self.count += 1
+            else:
+                out.append(v)
+        if len(out) == 1:
+            return out[0]
+        node.values = out
+        return node
+
+
+def merge_isinstance_chains(fn: ast.FunctionDef) -> int:
+    tr = _MergeIsinstance()
+    for i, st in enumerate(fn.body):
+        fn.body[i] = tr.visit(st)
+    return tr.count
+
+
+# ---------------------------------------------------------------------------- a local that is (only) a name for an attribute of self
+
+
+def fold_attribute_aliases(fn: ast.FunctionDef) -> int:
+    """``m = {}`` ... ``self.m = m`` (each exactly once, ``m`` never rebound): the local is just a shorter name for the attribute's
+    object.  The copy analysed reads ``self.m = {}`` at the place of the first statement, ``self.m`` wherever ``m`` was used, and
+    drops the second statement; rules that look for stores into ``self.m`` then see them whichever name the code uses."""
+    args = fn.args.posonlyargs + fn.args.args
+    if not args:
+        return 0
+    me = args[0].arg
+    stores: t.Dict[str, t.List[ast.stmt]] = {}
+    attr_stores: t.Dict[str, t.List[ast.stmt]] = {}
+    parent: t.Dict[int, ast.AST] = {}
+    for p in ast.walk(fn):
+        for ch in ast.iter_child_nodes(p):
+            parent[id(ch)] = p
+    params = {a.arg for a in args + fn.args.kwonlyargs} | ({fn.args.vararg.arg} if fn.args.vararg else set()) | ({fn.args.kwarg.arg} if fn.args.kwarg else set())
+    for x in ast.walk(fn):
+        if isinstance(x, ast.Name) and isinstance(x.ctx, (ast.Store, ast.Del)):
+            par = parent.get(id(x))
+            stores.setdefault(x.id, []).append(t.cast(ast.stmt, par))
+        if isinstance(x, ast.Attribute) and isinstance(x.ctx, (ast.Store, ast.Del)) and isinstance(x.value, ast.Name) and x.value.id == me:
+            attr_stores.setdefault(x.attr, []).append(t.cast(ast.stmt, parent.get(id(x))))
+    n = 0
+    for attr, sts in attr_stores.items():
+        if len(sts) != 1:
+            continue
+        st = sts[0]
+        val = getattr(st, 'value', None)
+        if not isinstance(st, (ast.Assign, ast.AnnAssign)) or not isinstance(val, ast.Name) or val.id in params:
+            continue
+        if isinstance(st, ast.Assign) and len(st.targets) != 1:
+            continue
+        loc = val.id
+        ls = stores.get(loc, [])
+        if len(ls) != 1 or not isinstance(ls[0], (ast.Assign, ast.AnnAssign)) or getattr(ls[0], 'value', None) is None:
+            continue
+        init = ls[0]
+        if isinstance(init, ast.Assign) and not (len(init.targets) == 1 and isinstance(init.targets[0], ast.Name)):
+            continue
+        # both statements directly in the function body (not under a branch or loop), the initialisation first
+        if parent.get(id(init)) is not fn or parent.get(id(st)) is not fn or fn.body.index(init) > fn.body.index(st):
+            continue
+        # nested functions must not capture the local
+        if any(isinstance(y, ast.Name) and y.id == loc for d in ast.walk(fn) if isinstance(d, (ast.FunctionDef, ast.Lambda)) and d is not fn
+               for y in ast.walk(d)):
+            continue
+
+        def attr_node(ctx: ast.expr_context, at: ast.AST) -> ast.Attribute:
+            a = ast.Attribute(value=ast.Name(id=me, ctx=ast.Load()), attr=attr, ctx=ctx)
+            for y in ast.walk(a):
+                ast.copy_location(y, at)
+            return a
+
+        class _R(ast.NodeTransformer):
+            def visit_Name(self, node: ast.Name) -> t.Any:
+                if node.id == loc and isinstance(node.ctx, ast.Load):
+                    return attr_node(ast.Load(), node)
+                return node
+        new_init = ast.Assign(targets=[attr_node(ast.Store(), init)], value=init.value)
+        ast.copy_location(new_init, init)
+        i0, i1 = fn.body.index(init), fn.body.index(st)
+        fn.body[i0] = new_init
+        del fn.body[i1]
+        for k, s_ in enumerate(fn.body):
+            if s_ is not new_init:
+                fn.body[k] = _R().visit(s_)
+        n += 1
+        break       # indices changed: one alias per pass is enough for the idiom
+    return n
+
+
+# ---------------------------------------------------------------------------- return A if C else B
+
+
+def split_conditional_returns(fn: ast.FunctionDef) -> int:
+    """``return A if C else B``  ->  ``if C: return A`` / ``return B`` (recursively, in every block of the function but not in nested
+    functions).  A decision then is a branch of the control-flow graph whichever way it is written."""
+    count = 0
+
+    def rewrite(block: t.List[ast.stmt]) -> None:
+        nonlocal count
+        i = 0
+        while i < len(block):
+            st = block[i]
+            if isinstance(st, ast.Return) and isinstance(st.value, ast.IfExp):
+                ife = st.value
+                a = ast.Return(value=ife.body)
+                b = ast.Return(value=ife.orelse)
+                new_if = ast.If(test=ife.test, body=[a], orelse=[])
+                for y in (a, b, new_if):
+                    ast.copy_location(y, st)
+                block[i:i + 1] = [new_if, b]
+                count += 1
+                continue      # re-examine (nested conditional expressions)
+            if not isinstance(st, (ast.FunctionDef, ast.AsyncFunctionDef, ast.ClassDef)):
+                for fld in ('body', 'orelse', 'finalbody'):
+                    sub = getattr(st, fld, None)
+                    if isinstance(sub, list) and sub and isinstance(sub[0], ast.stmt):
+                        rewrite(sub)
+                for h in getattr(st, 'handlers', []) or []:
+                    rewrite(h.body)
+            i += 1
+    rewrite(fn.body)
+    return count
